@@ -1,10 +1,12 @@
 import AscentVerif.Driver.Agg
 import AscentVerif.Driver.LatTypes
 import AscentVerif.Driver.Idx
+import AscentVerif.Driver.Engine
 open AscentVerif AscentVerif.Driver
 
 structure St where
   idx : Store := []
+  eng : EngStore := {}
 
 def step (st : St) (line : String) : St × String :=
   match Sexp.parseLine line with
@@ -15,6 +17,10 @@ def step (st : St) (line : String) : St × String :=
   | some (.atom "idx" :: rest) =>
     match handleIdx st.idx rest with
     | some (s', out) => ({ st with idx := s' }, out)
+    | none => (st, "bad-op")
+  | some (.atom "eng" :: rest) =>
+    match handleEng st.eng rest with
+    | some (s', out) => ({ st with eng := s' }, out)
     | none => (st, "bad-op")
   | some _ => (st, "bad-op")
 
